@@ -75,6 +75,7 @@ type Interp struct {
 	hb         havocBounds
 	inInit     int
 	curHarness *ssa.Function
+	known      map[*Term]bool
 	hstubs     map[string]Value
 }
 
@@ -103,6 +104,7 @@ func (in *Interp) resetPath(prefix []int) {
 	in.hb = defaultHavocBounds
 	in.inInit = 0
 	in.hstubs = nil
+	in.known = map[*Term]bool{}
 	in.sol.Send("(reset)\n(set-option :produce-models true)\n")
 	if in.sol.Name == "cvc5" {
 		in.sol.Send("(set-logic ALL)\n")
@@ -112,10 +114,30 @@ func (in *Interp) resetPath(prefix []int) {
 
 // ---------- solver interaction ----------
 
+// learn records literals implied by an asserted condition so that repeated branches on the same
+// condition are decided without a solver call.
+func (in *Interp) learn(c *Term, val bool) {
+	switch {
+	case c.Op == "not":
+		in.learn(c.Args[0], !val)
+	case c.Op == "and" && val:
+		for _, a := range c.Args {
+			in.learn(a, true)
+		}
+	case c.Op == "or" && !val:
+		for _, a := range c.Args {
+			in.learn(a, false)
+		}
+	default:
+		in.known[c] = val
+	}
+}
+
 func (in *Interp) assertPC(c *Term) {
 	if c.IsTrue() {
 		return
 	}
+	in.learn(c, true)
 	in.pc = append(in.pc, c)
 	txt := in.pr.Print(c)
 	in.sol.Send(in.pr.Flush())
@@ -128,6 +150,12 @@ func (in *Interp) checkWith(c *Term) string {
 		return "sat" // pc is satisfiable by invariant
 	}
 	if c.IsFalse() {
+		return "unsat"
+	}
+	if r, ok := in.lookupKnown(c); ok {
+		if r {
+			return "sat"
+		}
 		return "unsat"
 	}
 	txt := in.pr.Print(c)
@@ -160,10 +188,23 @@ func (in *Interp) checkWith(c *Term) string {
 	return r
 }
 
+func (in *Interp) lookupKnown(c *Term) (bool, bool) {
+	if c.Op == "not" {
+		v, ok := in.known[c.Args[0]]
+		return !v, ok
+	}
+	v, ok := in.known[c]
+	return v, ok
+}
+
 // Branch decides a symbolic condition, forking the path when both sides are feasible.
 func (in *Interp) Branch(c *Term) bool {
 	if c.IsConst() {
 		return c.U == 1
+	}
+	if v, ok := in.lookupKnown(c); ok {
+		// implied by the path condition: no decision is recorded
+		return v
 	}
 	in.branches++
 	if in.pos < len(in.prefix) {
@@ -257,7 +298,7 @@ func (in *Interp) Obligation(label string, c *Term, kind string) {
 		}
 		in.sol.Send("(pop 1)\n")
 	} else {
-		in.reportViolation(label, kind)
+		in.reportViolationAt(label, kind, in.where(), true)
 	}
 	switch r {
 	case "unsat":
